@@ -109,7 +109,12 @@ PROPS = {
         rule="A case is one plan plus its executed schedule: one parsed ExpressionCalculator or MustacheTemplate shared by 2-4 tasks, each with two "
              "private variable sets and 1-4 evaluations, or 2-4 tasks each constructing and using its own calculator, template, generic / expression / "
              "CSV / mustache tokenizer; tasks are real goroutines run one at a time by a seeded scheduler (policies uniform, sticky, round-robin, PCT, "
-             "starve-one; quanta of 1-400 yield steps) that can switch between any two statements of the library. Also without a schedule: one instance evaluated 3-10 times in a row with its default variables and explicit sets in a seeded order, and one template rendered under seeded map iteration orders. Non-trivial: at least one context "
+             "starve-one; quanta of 1-400 yield steps) that can switch between any two statements of the library. Motifs drawn into shared-calculator runs: a caller-supplied "
+             "function that fails or panics by its argument (panic values include typed nil errors, values whose Error()/String() panic, runtime errors, structs), "
+             "per-task function collections that disagree about a name, a variable whose Value() is nil referenced where its value is never looked at, a string "
+             "variable compared with a time span / date / number / boolean whose values over the variable sets are texts equal up to letter case or blanks that do "
+             "not convert alike ('1h' / '1H'), and (0.6 % of these runs) 130-320 tasks with one evaluation each under round-robin with a quantum of 1-6 steps, so "
+             "that all are in flight at once. Also without a schedule: one instance evaluated 3-10 times in a row with its default variables and explicit sets in a seeded order, and one template rendered under seeded map iteration orders. Non-trivial: at least one context "
              "switch happened while tasks were inside library code (scheduled scenarios) or at least 3 evaluations (sequential ones). Distinct: hash of (scenario, setup, tasks, executed schedule).",
         state_measure="not applicable (no model state: evaluation is compared with the sequential result); see distinct_schedules and distinct_switch_site_pairs",
         probes=["scenario_shared-calculator", "scenario_shared-template", "scenario_separate", "scenario_map-order-repeat", "map_order_case_colliding", "order_conc_first", "scenario_sequential-repeat", "variables_edited_between_evaluations"],
@@ -129,20 +134,25 @@ PROPS = {
         rule="A case is a set of 1-3 reused instances (generic / expression / CSV / mustache tokenizer, expression parser, mustache parser, "
              "calculator, template; seeded option flags), each with a history of 2-12 steps, interleaved at yield points by the seeded scheduler. "
              "A step is an input (80% from a pool holding every registered multi-character symbol, every token class, unterminated and malformed "
-             "inputs, Latin-1 and non-Latin text; 20% generated) plus a consumption mode (TokenizeBuffer, TokenizeStream over a wrapped scanner, "
+             "inputs, Latin-1 and non-Latin text; 20% generated; a quarter of all inputs then lexically damaged - a character deleted or doubled, a lexeme that "
+             "opens, closes or empties an element inserted, a letter replaced by its one-way Unicode case twin, the input cut short; 15% are such a near-twin of an "
+             "earlier input of the same history, in either order) plus a consumption mode (TokenizeBuffer, TokenizeStream over a wrapped scanner, "
              "SetReader + NextToken loop with 0-3 HasNextToken calls before each fetch) and, in fault runs, a fault at a seam (scanner panics at "
-             "call k, stream ends after k characters, consumer abandons after j tokens, operations manager / variable / function delegate fails). "
+             "call k, stream ends after k characters, consumer abandons after j tokens, operations manager / variable / function delegate fails, a function that "
+             "calls back into the calculator that is calling it). Calculators are also evaluated through their own default collections, after the default "
+             "functions were edited (a standard function replaced or removed), with and without setting the expression again; CSV tokenizers are also "
+             "reconfigured through their getters (list read, changed in place, handed back) - the fresh reference gets the resulting list through a plain setter call. "
              "The first two steps of the first instance sweep ordered pairs of the pool. Every step is compared with a fresh instance given the "
              "same step and, for pool inputs without fault, with the result computed at process start. Non-trivial: at least two steps. "
              "Distinct: hash of (tasks, executed schedule, fault switch).",
         state_measure="distinct (instance kind, previous input, current input, consumption mode, fault kind) tuples - ordered input pairs covered",
-        fault_kinds=["fail_at", "eof_at", "abandon_after", "op_error", "var_missing", "fn_error", "fn_panic", "fn_error_plain", "fn_both"],
+        fault_kinds=["fail_at", "eof_at", "abandon_after", "op_error", "var_missing", "fn_error", "fn_panic", "fn_error_plain", "fn_both", "fn_reenter"],
         probes=["pristine_compared"],
         real=["all tokenizers, parsers, ExpressionCalculator, MustacheTemplate (instrumented copy)"],
         stub=["SimScanner (pass-through io.StringScanner that counts calls, ends early or panics at call k)", "SimOps (pass-through operations manager failing at call n)",
               "SimVariables (pass-through collection hiding one name)", "Faulty / PlainFaulty functions"],
         assumptions=["a step under a fault is compared with a fresh instance under the same fault (call index resolved against a fault-free dry run)",
-                     "calculator steps pass explicit variables, so the default collection (which legitimately accumulates) is not compared",
+                     "default variables legitimately accumulate over a history; steps through the default collections set every variable of the step's set to its value first",
                      "panics of the library inside a step are compared like results (same on fresh instance) and counted as observations; they are C03's business"],
     ),
     "C18": one(
@@ -178,13 +188,15 @@ PROPS = {
         anchor_files=["calculator/functions/DelegatedFunction.go", "calculator/ExpressionCalculator.go", "tokenizers/AbstractTokenizer.go",
                       "calculator/parsers/ExpressionParser.go", "mustache/parsers/MustacheParser.go", "mustache/MustacheTemplate.go"],
         rule="A case is one history of 2-12 steps on one reused instance (tokenizers, parsers, calculator, template; inputs from the C05 pool, the "
-             "expression/template generators and calls of the 37 built-in functions with literal arguments), most steps carrying a fault at a seam: "
-             "the scanner panics at call k or ends after k characters, the consumer abandons after j tokens, the function delegate returns an error or "
-             "panics, a variable is missing, the operations manager fails at call n (indices resolved against a fault-free dry run, so the fault lands "
+             "expression/template generators and calls of the 37 built-in functions with literal arguments; a quarter lexically damaged as in C05: empty and unclosed "
+             "elements, one-way case twins, cuts), most steps carrying a fault at a seam: "
+             "the scanner panics at call k or ends after k characters, the consumer abandons after j tokens, the function delegate returns an error (several Go "
+             "types and texts), returns an error together with a result, panics (texts, errors, typed nil errors, values whose Error()/String() panic, runtime "
+             "errors, structs, uncomparable values) or calls back into the calculator that is calling it, a variable is missing, the operations manager fails at call n (indices resolved against a fault-free dry run, so the fault lands "
              "inside the operation). A second batch runs the same generators without faults under the same monitor. Non-trivial: at least one fault "
              "fired inside an operation. Distinct: hash of (task, fault switch).",
         state_measure="distinct (instance kind, consumption mode, fired fault kind, outcome kind) tuples",
-        fault_kinds=["fail_at", "eof_at", "abandon_after", "op_error", "var_missing", "fn_error", "fn_panic", "fn_error_plain", "fn_both", "state_nil", "state_empty"],
+        fault_kinds=["fail_at", "eof_at", "abandon_after", "op_error", "var_missing", "fn_error", "fn_panic", "fn_error_plain", "fn_both", "fn_reenter", "state_nil", "state_empty"],
         probes=["fault_free_runs"],
         real=["all tokenizers, parsers, ExpressionCalculator, MustacheTemplate, DefaultFunctionCollection (instrumented copy)"],
         stub=["SimScanner", "SimOps", "SimVariables", "Faulty / PlainFaulty functions (pass-through except where a fault is scheduled)"],
@@ -205,7 +217,8 @@ PROPS = {
         anchor_files=["calculator/functions/DefaultFunctionCollection.go", "calculator/functions/DelegatedFunction.go", "calculator/functions/FunctionCollection.go"],
         rule="A case is one run inside a testing/synctest bubble: 1-3 tasks with 1-6 operations each - Now(), Ticks(), Rnd()/Random() (1-5 draws), "
              "Date(y,m,d[,h,mi,s]), DayOfWeek(Date(y,m,d)), a call of one of the 37 registered names in random letter case with 0-8 seeded arguments of "
-             "every variant type, a panicking delegate - each called either through IFunction.Calculate or through an expression; the scheduler "
+             "every variant type, a delegate that panics (with a text, an error, a typed nil error, a value whose Error()/String() panics, a runtime error, a "
+             "struct, an uncomparable value) - each called either through IFunction.Calculate or through an expression; the scheduler "
              "interleaves the tasks at yield points and advances the fake clock by 0, 1 ns, 999 ms, 1 s, 1 h, 36 h, 400 d or 30 y before resuming a task "
              "(also in the middle of an evaluation); time.Local is a fixed zone between -12 h and +14 h or (30%) a named zone with daylight saving from the embedded tzdata, with dates biased to transition days; one run in 500 makes 2 million Rnd() draws. Non-trivial: a clock- or zone-dependent call "
              "was checked or a function was called through the seam. Distinct: hash of (tasks, configuration, executed schedule with jumps).",
